@@ -209,8 +209,9 @@ def run(prog, rep):
                             ok_scope = False
                 from ..normalize import builders as _b
                 for b_ in _b(fn).get(rhs.id, []):
-                    if b_.conds and any(scope in ast.unparse(i) for _, i in b_.gens):
-                        ok_scope = False
+                    if any(scope in ast.unparse(i) for _, i in b_.gens):
+                        # filled by a loop over the scope's listing: complete only when nothing is filtered out
+                        ok_scope = not b_.conds
             if ok_scope and any(isinstance(x, ast.comprehension) and x.ifs for x in ast.walk(rhs)):
                 ok_scope = False
             if ok_scope and ast.unparse(tcan.left) == 'name':
